@@ -29,10 +29,20 @@ func main() {
 		checks.CheckC03(*tier)
 	case "C04":
 		checks.CheckC04(*tier)
+	case "C05":
+		checks.CheckC05(*tier)
+	case "C06":
+		checks.CheckC06(*tier)
+	case "C07":
+		checks.CheckC07(*tier)
+	case "C08":
+		checks.CheckC08(*tier)
 	case "C09":
 		checks.CheckC09(*tier)
 	case "C10":
 		checks.CheckC10(*tier)
+	case "C11":
+		checks.CheckC11(*tier)
 	case "C12":
 		checks.CheckC12(*tier)
 	case "diag":
